@@ -73,7 +73,7 @@ where
         )?;
     }
 
-    writeln!(writer, "    let url = \"{action}\";")?;
+    writeln!(writer, "    let url = {:?};", action.as_str())?;
     writeln!(writer, "    helpers::send_soap_request(url, credentials, req).await")?;
     writeln!(writer, "}}")?;
 
